@@ -263,6 +263,15 @@ def rule_c16(prog, rep):
             for sub in table_subscripts(f, name):
                 rep.instance('TB6')
                 ok = _index_is_unsigned_byte(sub)
+                if not ok:
+                    # an int temporary all of whose definitions are unsigned bytes / masked values is as good
+                    from .strrules import _byte_index_ok
+                    from .dataflow import ReachingDefs
+                    rd6 = ReachingDefs(f)
+                    for n6 in f.cfg.nodes:
+                        if isinstance(n6.ast, dict) and n6.kind != 'macro' and n6.id in rd6.IN and any(y is sub for y in walk(n6.ast)):
+                            ok = _byte_index_ok(f, rd6, n6.id, children(sub)[1])
+                            break
                 rep.oblige('TB6', ok, {'function': f.name, 'subscript': canon(sub)})
                 if not ok:
                     rep.violation('TB6', f, sub.get('_line'), 'index:%s' % canon(children(sub)[1]),
@@ -373,6 +382,8 @@ def byte_pred(prog, f, e, env, tables):
             return ('ctype', idx)
         return None
     if k == 'UnaryOperator':
+        if s.get('opcode') == '*' and env.get('*') is not None:
+            return env['*']         # the byte under the scan cursor (strrules)
         a = byte_pred(prog, f, children(s)[0], env, tables)
         if a is None or isinstance(a, tuple):
             return None
@@ -380,19 +391,28 @@ def byte_pred(prog, f, e, env, tables):
     if k == 'BinaryOperator':
         op = s.get('opcode')
         a = byte_pred(prog, f, children(s)[0], env, tables)
+        neutral = env.get('?neutral')      # atoms that do not depend on the byte are the neutral element of && / ||
         if op == '&&':
             if a is None:
-                return None
+                if not neutral:
+                    return None
+                a = 1
             if not a:
                 return 0
             b = byte_pred(prog, f, children(s)[1], env, tables)
+            if b is None and neutral:
+                b = 1
             return None if b is None else int(bool(b))
         if op == '||':
             if a is None:
-                return None
+                if not neutral:
+                    return None
+                a = 0
             if a and not isinstance(a, tuple):
                 return 1
             b = byte_pred(prog, f, children(s)[1], env, tables)
+            if b is None and neutral:
+                b = 0
             return None if b is None else int(bool(b))
         b = byte_pred(prog, f, children(s)[1], env, tables)
         if op == '&' and isinstance(a, tuple) and a[0] == 'ctype':
@@ -419,6 +439,14 @@ def byte_pred(prog, f, e, env, tables):
         if nm in CTYPE_FN and args:
             c = byte_pred(prog, f, args[0], env, tables)
             return None if c is None else int(CTYPE_MASK[CTYPE_FN[nm]](c & 0xFF))
+        if nm in ('toupper', 'tolower') and args:
+            c = byte_pred(prog, f, args[0], env, tables)
+            if c is None or isinstance(c, tuple):
+                return None
+            if not 0 <= c <= 255:
+                return c
+            return ord(chr(c).upper()) if (nm == 'toupper' and 97 <= c <= 122) else \
+                ord(chr(c).lower()) if (nm == 'tolower' and 65 <= c <= 90) else c
         tgt = prog.resolve_name(f.unit, nm) if nm else None
         if tgt is not None and nm not in CTYPE_FN:
             # a small pure helper of the repository (e.g. `static inline bool is_safe(unsigned char c)`): evaluated case by
